@@ -53,6 +53,8 @@ impl Run {
         #[cfg(pnordahl_monorail_verif)]
         crate::verif::point("ptr.written", "");
         fs::rename(&tmp_path, &self.path)?;
+        #[cfg(pnordahl_monorail_verif)]
+        crate::verif::point("ptr.renamed", "");
         Ok(())
     }
 }
